@@ -26,14 +26,15 @@ theorem allowed_lists_asymmetric :
     error exits; verification is jwt.ParseString with WithKey(alg, key) and WithVerify(true) -/
 theorem fact_parseJWT :
     Facts.C17.jwtKidAlgErrConds = ["err != nil", "len(j.Signatures()) != 1"] ∧
-    Facts.C17.parseJWTErrConds = ["err != nil", "err != nil", "!jwx.IsAlgorithmSupported(alg)"] ∧
-    Facts.C17.parseJWTCalls = ["JWTKidAlg", "f", "jwx.IsAlgorithmSupported", "fmt.Errorf", "append", "jwt.WithKey", "jwt.WithVerify", "jwt.ParseString"] := by
+    Facts.C17.parseJWTErrConds = ["err != nil", "err != nil", "!jwx.IsAlgorithmSupported(alg)", "!jwx.AlgorithmFitsKey(alg, key)"] ∧
+    Facts.C17.parseJWTCalls = ["JWTKidAlg", "f", "jwx.IsAlgorithmSupported", "fmt.Errorf", "jwx.AlgorithmFitsKey", "append", "jwt.WithKey", "jwt.WithVerify", "jwt.ParseString"] := by
   decide
 
 /-- ParseJWS: exactly one signature is demanded and the library verifies over the parsed message -/
 theorem fact_parseJWS :
     Facts.C17.parseJWSCountRule = .exactlyOne ∧ Facts.C17.parseJWSVerifyMode = .library ∧
-    Facts.C17.parseJWSErrConds = ["err != nil", "len(signatures) != 1", "!jwx.IsAlgorithmSupported(alg)", "err != nil"] := by decide
+    Facts.C17.parseJWSErrConds =
+      ["err != nil", "len(signatures) != 1", "!jwx.IsAlgorithmSupported(alg)", "err != nil", "!jwx.AlgorithmFitsKey(alg, key)"] := by decide
 
 /-- dpop.Parse: its first seven error exits, in order, are the signature discipline (parse, one signature, alg on the
     shared allow-list, typ, jwk present, jwk not private, jwt.ParseString WithKey(alg, jwk)); what follows are claim
@@ -107,6 +108,18 @@ theorem fact_wiring :
     Facts.C17.addSupportedAlgorithmCallers = ["crypto/jwx/jwx_es256k.go"] ∧
     Facts.C17.dagSignatureVerifierInstalledIn = ["network/network.go"] := by decide
 
+set_option maxRecDepth 8000 in
+/-- crypto/jwx.AlgorithmFitsKey, verbatim (P-256 ↔ ES256, P-384 ↔ ES384, P-521 ↔ ES512; the harness's `fits` verdict is its own
+    re-statement of RFC 7518 3.4); the bearer-token key loop counts a jwx-verified credential whose header algorithm does not fit
+    the authorised key as NOT verified by that key (the harness's `verifies` verdict includes the fit) -/
+theorem fact_alg_fits_key :
+    Facts.C17.algorithmFitsKeyBody =
+      "{ var curve string switch k := key.(type) { case *ecdsa.PublicKey: curve = k.Params().Name case ecdsa.PublicKey: curve = k.Params().Name case *ecdsa.PrivateKey: curve = k.Params().Name case jwk.ECDSAPublicKey: curve = k.Crv().String() case jwk.ECDSAPrivateKey: curve = k.Crv().String() default: return true } switch curve { case \"P-256\": return alg == jwa.ES256 case \"P-384\": return alg == jwa.ES384 case \"P-521\": return alg == jwa.ES512 default: return true } }" ∧
+    Facts.C17.apiTokenKeyLoopFitTest =
+      "err == nil && !credentialAlgorithmFitsKey(credential, authorizedKey) => { err = errors.New(\"signing algorithm does not fit the authorized key\") }" ∧
+    "nutsJwx.AlgorithmFitsKey" ∈ Facts.C17.credentialAlgorithmFitsKeyCalls ∧ "cryptoPublicKey" ∈ Facts.C17.credentialAlgorithmFitsKeyCalls := by
+  refine ⟨by rfl, by rfl, by decide, by decide⟩
+
 /-! ### The uniform statement -/
 
 /-- the discipline of an accepted token: exactly one signature `s`, exactly one verification `v`, of that signature,
@@ -116,22 +129,23 @@ def Disciplined (allowed : List String) (j : Jws) (vs : List Verified) (keyOK : 
   ∃ s v, j.sigs = [s] ∧ vs = [v] ∧ v.idx = 0 ∧ v.alg = s.alg ∧ s.alg ∈ allowed ∧ s.alg ∉ symmetricOrNone ∧
     v.overSigningInput = true ∧ keyOK s v
 
-/-- crypto.ParseJWT: the key is the one the protocol's source returns for the token's kid, and jwx verified with it -/
+/-- crypto.ParseJWT: the key is the one the protocol's source returns for the token's kid, jwx verified with it, and the
+    algorithm fits that key (an ECDSA key only with the algorithm of its curve) -/
 theorem accept_parseJWT (E : Env) (j : Jws) (vs : List Verified)
     (h : parseJWT Facts.C17.supportedAlgs E j = .accept vs) :
     Disciplined Facts.C17.supportedAlgs j vs (fun s v =>
-      v.src = .resolver s.kid ∧ E.resolve s.kid = some v.key ∧ E.verifies v.key s.alg 0 = true) := by
-  obtain ⟨s, k, hs, hv, hr, hal, hver⟩ := parseJWT_accept h
-  exact ⟨s, _, hs, hv, rfl, rfl, hal, allowed_lists_asymmetric.1 _ hal, rfl, rfl, hr, hver⟩
+      v.src = .resolver s.kid ∧ E.resolve s.kid = some v.key ∧ E.verifies v.key s.alg 0 = true ∧ E.fits v.key s.alg = true) := by
+  obtain ⟨s, k, hs, hv, hr, hal, hver, hfit⟩ := parseJWT_accept h
+  exact ⟨s, _, hs, hv, rfl, rfl, hal, allowed_lists_asymmetric.1 _ hal, rfl, rfl, hr, hver, hfit⟩
 
 /-- crypto.ParseJWS (as the source is now: one signature, library verification) -/
 theorem accept_parseJWS (E : Env) (j : Jws) (vs : List Verified)
     (h : parseJWS Facts.C17.supportedAlgs Facts.C17.parseJWSCountRule Facts.C17.parseJWSVerifyMode E j = .accept vs) :
     Disciplined Facts.C17.supportedAlgs j vs (fun s v =>
-      v.src = .resolver s.kid ∧ E.resolve s.kid = some v.key ∧ E.verifies v.key s.alg 0 = true) := by
+      v.src = .resolver s.kid ∧ E.resolve s.kid = some v.key ∧ E.verifies v.key s.alg 0 = true ∧ E.fits v.key s.alg = true) := by
   rw [fact_parseJWS.1, fact_parseJWS.2.1] at h
-  obtain ⟨s, k, hs, hv, hr, hal, hver⟩ := parseJWS_accept_fixed h
-  exact ⟨s, _, hs, hv, rfl, rfl, hal, allowed_lists_asymmetric.1 _ hal, rfl, rfl, hr, hver⟩
+  obtain ⟨s, k, hs, hv, hr, hal, hver, hfit⟩ := parseJWS_accept_fixed h
+  exact ⟨s, _, hs, hv, rfl, rfl, hal, allowed_lists_asymmetric.1 _ hal, rfl, rfl, hr, hver, hfit⟩
 
 /-- the hand-rolled verification the source had before the repair does NOT have the property: two signatures are
     accepted and what was verified is not the signing input (the payload is not covered). Replayed on the real
@@ -241,22 +255,22 @@ theorem apiToken_atLeastOne_rule_accepts_two_signatures :
 theorem accept_jar (E : Env) (J : JarEnv) (j : Jws) (vs : List Verified)
     (h : jarValidate Facts.C17.supportedAlgs E J j = .accept vs) :
     Disciplined Facts.C17.supportedAlgs j vs (fun s v =>
-      v.src = .resolver s.kid ∧ E.resolve s.kid = some v.key ∧ E.verifies v.key s.alg 0 = true ∧
+      v.src = .resolver s.kid ∧ E.resolve s.kid = some v.key ∧ E.verifies v.key s.alg 0 = true ∧ E.fits v.key s.alg = true ∧
       J.clientKey s.kid = some v.key ∧ J.clientIdMatches = true) := by
   obtain ⟨hp, hcid, hck⟩ := jar_accept h
-  obtain ⟨s, v, hs, hv, hidx, halg, hal, hasym, hov, hsrc, hres, hver⟩ := accept_parseJWT E j vs hp
-  exact ⟨s, v, hs, hv, hidx, halg, hal, hasym, hov, hsrc, hres, hver, hck s v hs hv hsrc, hcid⟩
+  obtain ⟨s, v, hs, hv, hidx, halg, hal, hasym, hov, hsrc, hres, hver, hfit⟩ := accept_parseJWT E j vs hp
+  exact ⟨s, v, hs, hv, hidx, halg, hal, hasym, hov, hsrc, hres, hver, hfit, hck s v hs hv hsrc, hcid⟩
 
 /-- VC / VP in JWT format (signature_verifier.jwtSignature): ParseJWT's discipline with the DID key resolver (an absent
     kid resolves the issuer's key), and a present kid belongs to the issuer -/
 theorem accept_vcJwt (E : Env) (issuer : String) (didOf : String → String) (j : Jws) (vs : List Verified)
     (h : vcJwtSignature Facts.C17.supportedAlgs E issuer didOf j = .accept vs) :
     Disciplined Facts.C17.supportedAlgs j vs (fun s v =>
-      E.resolve (if s.kid = "" then issuer else s.kid) = some v.key ∧ E.verifies v.key s.alg 0 = true ∧
+      E.resolve (if s.kid = "" then issuer else s.kid) = some v.key ∧ E.verifies v.key s.alg 0 = true ∧ E.fits v.key s.alg = true ∧
       (s.kid ≠ "" → didOf s.kid = issuer)) := by
   obtain ⟨hp, hiss⟩ := vcJwt_accept h
-  obtain ⟨s, v, hs, hv, hidx, halg, hal, hasym, hov, _, hres, hver⟩ := accept_parseJWT _ j vs hp
-  exact ⟨s, v, hs, hv, hidx, halg, hal, hasym, hov, hres, hver, hiss s hs⟩
+  obtain ⟨s, v, hs, hv, hidx, halg, hal, hasym, hov, _, hres, hver, hfit⟩ := accept_parseJWT _ j vs hp
+  exact ⟨s, v, hs, hv, hidx, halg, hal, hasym, hov, hres, hver, hfit, hiss s hs⟩
 
 /-- v1 authorization server, JWT bearer grant (parseAndValidateJwtBearerToken + validateIssuer): ParseJWT's discipline
     with the DID key resolver, `iss` is a DID, and the kid is a DID URL of exactly that DID — the verifying key is one the
@@ -264,11 +278,11 @@ theorem accept_vcJwt (E : Env) (issuer : String) (didOf : String → String) (j 
 theorem accept_authzV1 (E : Env) (issuer : String) (ip : Bool) (didOf : String → String) (j : Jws) (vs : List Verified)
     (h : authzV1 Facts.C17.supportedAlgs Facts.C17.authzV1ChecksKidIssuer E issuer ip didOf j = .accept vs) :
     Disciplined Facts.C17.supportedAlgs j vs (fun s v =>
-      v.src = .resolver s.kid ∧ E.resolve s.kid = some v.key ∧ E.verifies v.key s.alg 0 = true ∧ didOf s.kid = issuer) := by
+      v.src = .resolver s.kid ∧ E.resolve s.kid = some v.key ∧ E.verifies v.key s.alg 0 = true ∧ E.fits v.key s.alg = true ∧ didOf s.kid = issuer) := by
   rw [fact_authzV1.1] at h
   obtain ⟨hp, _, hiss⟩ := authzV1_accept h
-  obtain ⟨s, v, hs, hv, hidx, halg, hal, hasym, hov, hsrc, hres, hver⟩ := accept_parseJWT E j vs hp
-  exact ⟨s, v, hs, hv, hidx, halg, hal, hasym, hov, hsrc, hres, hver, hiss s hs⟩
+  obtain ⟨s, v, hs, hv, hidx, halg, hal, hasym, hov, hsrc, hres, hver, hfit⟩ := accept_parseJWT E j vs hp
+  exact ⟨s, v, hs, hv, hidx, halg, hal, hasym, hov, hsrc, hres, hver, hfit, hiss s hs⟩
 
 /-- without the kid/issuer test any resolvable party signs in the name of any requester (witness replayed on the real
     parseAndValidateJwtBearerToken + validateIssuer: variants signed-by-attacker-own-kid, lookalike(...)) -/
